@@ -1194,3 +1194,342 @@ Qed.
 
 Theorem tunnel_no_assertion_failure early evs : t_crashed (trun evs (tun_start early)) = false.
 Proof. pose proof (trun_TI evs _ (tun_start_TI early)) as H. apply H. Qed.
+
+(* ---------- draining on close ---------- *)
+(* frame facts that hold for every step: nothing reopens a connection, nothing is delivered to a closed
+   connection, a peer that sent FIN sends nothing more *)
+Definition frame0 (t t' : tun) : Prop :=
+  forall y, (s_open (gs y t') = true -> s_open (gs y t) = true) /\
+            s_deliv (gs y t') = s_deliv (gs y t) /\ s_sentby (gs y t') = s_sentby (gs y t) /\
+            s_fin (gs y t') = s_fin (gs y t).
+
+Lemma frame0_refl t : frame0 t t.
+Proof. intros y. repeat split; auto. Qed.
+Lemma frame0_trans t1 t2 t3 : frame0 t1 t2 -> frame0 t2 t3 -> frame0 t1 t3.
+Proof.
+  intros H1 H2 y. destruct (H1 y) as (A1 & A2 & A3 & A4). destruct (H2 y) as (B1 & B2 & B3 & B4).
+  repeat split; [auto|congruence..].
+Qed.
+
+Lemma close_conn_frame0 x t : frame0 t (close_conn x t).
+Proof.
+  unfold close_conn. destruct (s_open (gs x t)) eqn:Eo; [|apply frame0_refl].
+  intros y. destruct x, y; cbn [gs ss t_cl t_sv s_open s_deliv s_sentby s_fin]; repeat split; auto; discriminate.
+Qed.
+
+Lemma copy_to_frame0 x t : frame0 t (copy_to x t).
+Proof.
+  unfold copy_to. intros y. destruct x, y; cbn [gs ss t_cl t_sv s_open s_deliv s_sentby s_fin]; repeat split; auto.
+Qed.
+
+Lemma keep_going_frame0 len err from t : frame0 t (snd (keep_going len err from t)).
+Proof.
+  unfold keep_going. destruct err; cbn [snd]; [apply close_conn_frame0|].
+  destruct (len =? 0); cbn [snd].
+  { destruct (_ && _); [eapply frame0_trans; [apply close_conn_frame0|apply close_conn_frame0]| apply close_conn_frame0]. }
+  destruct (negb _); cbn [snd]; [apply close_conn_frame0| apply frame0_refl].
+Qed.
+
+Lemma copy_bytes_frame0 from t : frame0 t (copy_bytes from t).
+Proof.
+  unfold copy_bytes. destruct (s_buf (gs from t)); [|intros y; destruct y; repeat split; auto].
+  destruct (s_pre (gs from t)) eqn:Ep.
+  - intros y. destruct from, y; cbn [gs ss t_cl t_sv s_open s_deliv s_sentby s_fin]; repeat split; auto.
+  - match goal with |- context [keep_going ?n false from ?tt] =>
+      pose proof (keep_going_frame0 n false from tt) as Hk; destruct (keep_going n false from tt) as [k t2] end.
+    cbn [snd] in Hk.
+    assert (H1 : frame0 t t2).
+    { eapply frame0_trans; [|exact Hk].
+      intros y. destruct from, y; cbn [gs ss t_cl t_sv s_open s_deliv s_sentby s_fin]; repeat split; auto. }
+    destruct k; [eapply frame0_trans; [exact H1|apply copy_to_frame0]| exact H1].
+Qed.
+
+Definition frame (t t' : tun) : Prop :=
+  forall y, (s_open (gs y t') = true -> s_open (gs y t) = true) /\
+            (s_open (gs y t) = false -> s_deliv (gs y t') = s_deliv (gs y t)) /\
+            (s_fin (gs y t) = true -> s_sentby (gs y t') = s_sentby (gs y t) /\ s_fin (gs y t') = true).
+
+Lemma frame0_frame t t' : frame0 t t' -> frame t t'.
+Proof. intros H y. destruct (H y) as (A1 & A2 & A3 & A4). repeat split; auto; congruence. Qed.
+
+Lemma frame_trans_0 t1 t2 t3 : frame t1 t2 -> frame0 t2 t3 -> frame t1 t3.
+Proof.
+  intros H1 H2 y. destruct (H1 y) as (A1 & A2 & A3). destruct (H2 y) as (B1 & B2 & B3 & B4).
+  split; [auto|]. split; [intros X; rewrite B2; auto|].
+  intros X. destruct (A3 X) as [C1 C2]. split; congruence.
+Qed.
+
+Ltac side_frame := cbn [gs ss t_cl t_sv s_open s_deliv s_sentby s_fin].
+
+Lemma tstep_frame e t : frame t (tstep e t).
+Proof.
+  destruct e as [x d|x|x n|x|x|x k|x|]; cbn [tstep].
+  - unfold on_tsend. destruct (s_fin (gs x t)) eqn:Ef; [apply frame0_frame, frame0_refl|].
+    intros y. destruct x, y; side_frame; cbn [gs t_cl t_sv] in Ef; repeat split; auto; congruence.
+  - unfold on_tfin. intros y. destruct x, y; side_frame; repeat split; auto.
+  - unfold on_tread. destruct (_ || _); [apply frame0_frame, frame0_refl|].
+    destruct (s_wire (gs x t)).
+    + destruct (s_fin (gs x t)); [|apply frame0_frame, frame0_refl].
+      eapply frame_trans_0; [|apply keep_going_frame0].
+      intros y. destruct x, y; side_frame; repeat split; auto.
+    + match goal with |- context [keep_going ?m false x ?tt] =>
+        pose proof (keep_going_frame0 m false x tt) as Hk; destruct (keep_going m false x tt) as [k t2] end.
+      cbn [snd] in Hk.
+      assert (H1 : frame t t2).
+      { eapply frame_trans_0; [|exact Hk]. intros y. destruct x, y; side_frame; repeat split; auto. }
+      destruct k; [eapply frame_trans_0; [exact H1|apply copy_to_frame0]| exact H1].
+  - unfold on_treaderr. destruct (_ || _); [apply frame0_frame, frame0_refl|].
+    eapply frame_trans_0; [|apply keep_going_frame0].
+    intros y. destruct x, y; side_frame; repeat split; auto.
+  - unfold on_twrote. destruct (_ || _) eqn:Eg; [apply frame0_frame, frame0_refl|].
+    apply orb_false_iff in Eg. destruct Eg as [_ Eg]. apply negb_false_iff in Eg. apply andb_true_iff in Eg.
+    destruct Eg as [_ Ho].
+    match goal with |- context [close_conn x ?tt] => set (t1 := tt) end.
+    assert (H1 : frame t t1).
+    { unfold t1. intros y. destruct x, y; side_frame; cbn [gs t_cl t_sv] in Ho; repeat split; auto; congruence. }
+    destruct (lenN _ =? 0); [eapply frame_trans_0; [exact H1|apply close_conn_frame0]|].
+    match goal with |- context [copy_bytes (other x) ?tt] => set (t2 := tt) end.
+    assert (H2 : frame t t2).
+    { eapply frame_trans_0; [exact H1|]. unfold t2. intros y. destruct x, y; cbn [other]; side_frame; repeat split; auto. }
+    destruct (negb _); [eapply frame_trans_0; [exact H2|apply close_conn_frame0]|
+                        eapply frame_trans_0; [exact H2|apply copy_bytes_frame0]].
+  - unfold on_twriteerr. destruct (_ || _) eqn:Eg; [apply frame0_frame, frame0_refl|].
+    apply orb_false_iff in Eg. destruct Eg as [_ Eg]. apply negb_false_iff in Eg. apply andb_true_iff in Eg.
+    destruct Eg as [_ Ho].
+    eapply frame_trans_0; [|apply close_conn_frame0].
+    intros y. destruct x, y; cbn [other]; side_frame; cbn [gs t_cl t_sv] in Ho; repeat split; auto; congruence.
+  - unfold on_tclosed. destruct (_ || _); [apply frame0_frame, frame0_refl|].
+    match goal with |- context [tdelete ?tt] => set (t1 := tt) end.
+    assert (H1 : frame t t1).
+    { unfold t1. intros y. destruct x, y; side_frame; repeat split; auto. }
+    destruct (_ && _); [exact H1|].
+    destruct (s_writer _); [exact H1| eapply frame_trans_0; [exact H1|apply close_conn_frame0]].
+  - unfold on_ttimeout. destruct (t_deleted t); [apply frame0_frame, frame0_refl|].
+    apply frame0_frame. eapply frame0_trans; apply close_conn_frame0.
+Qed.
+
+Lemma tstep_fin_same e y t : is_fin_of y e = false -> s_fin (gs y t) = false -> s_fin (gs y (tstep e t)) = false.
+Proof.
+  intros Hf H0.
+  destruct e as [x d|x|x n|x|x|x k|x|]; cbn [tstep].
+  - unfold on_tsend. destruct (s_fin (gs x t)); [assumption|]. destruct x, y; side_frame; assumption.
+  - unfold on_tfin. destruct x, y; cbn [is_fin_of] in Hf; try discriminate; side_frame; assumption.
+  - pose proof (tstep_frame (TRead x n) t) as F. cbn [tstep] in F.
+    unfold on_tread in *. destruct (_ || _); [assumption|].
+    destruct (s_wire (gs x t)).
+    + destruct (s_fin (gs x t)) eqn:Ef; [|assumption].
+      match goal with |- context [keep_going 0 false x ?tt] => destruct (keep_going_frame0 0 false x tt y) as (_ & _ & _ & E) end.
+      rewrite E. destruct x, y; side_frame; cbn [gs t_cl t_sv] in *; congruence.
+    + match goal with |- context [keep_going ?m false x ?tt] =>
+        pose proof (keep_going_frame0 m false x tt y) as (_ & _ & _ & E); destruct (keep_going m false x tt) as [k t2] end.
+      cbn [snd] in E.
+      assert (E2 : s_fin (gs y t2) = false) by (rewrite E; destruct x, y; side_frame; assumption).
+      destruct k; [|assumption]. destruct (copy_to_frame0 (other x) t2 y) as (_ & _ & _ & E3). congruence.
+  - unfold on_treaderr. destruct (_ || _); [assumption|].
+    match goal with |- context [keep_going 0 true x ?tt] => destruct (keep_going_frame0 0 true x tt y) as (_ & _ & _ & E) end.
+    rewrite E. destruct x, y; side_frame; assumption.
+  - unfold on_twrote. destruct (_ || _); [assumption|].
+    match goal with |- context [close_conn x ?tt] => set (t1 := tt) end.
+    assert (E1 : s_fin (gs y t1) = false) by (unfold t1; destruct x, y; side_frame; assumption).
+    destruct (lenN _ =? 0); [destruct (close_conn_frame0 x t1 y) as (_ & _ & _ & E); congruence|].
+    match goal with |- context [copy_bytes (other x) ?tt] => set (t2 := tt) end.
+    assert (E2 : s_fin (gs y t2) = false) by (unfold t2; destruct x, y; cbn [other]; side_frame; assumption).
+    destruct (negb _); [destruct (close_conn_frame0 x t2 y) as (_ & _ & _ & E); congruence|
+                        destruct (copy_bytes_frame0 (other x) t2 y) as (_ & _ & _ & E); congruence].
+  - unfold on_twriteerr. destruct (_ || _); [assumption|].
+    match goal with |- context [close_conn x ?tt] => destruct (close_conn_frame0 x tt y) as (_ & _ & _ & E) end.
+    rewrite E. destruct x, y; cbn [other]; side_frame; assumption.
+  - unfold on_tclosed. destruct (_ || _); [assumption|].
+    match goal with |- context [tdelete ?tt] => set (t1 := tt) end.
+    assert (E1 : s_fin (gs y t1) = false) by (unfold t1; destruct x, y; side_frame; assumption).
+    destruct (_ && _); [destruct y; exact E1|].
+    destruct (s_writer _); [exact E1|]. destruct (close_conn_frame0 (other x) t1 y) as (_ & _ & _ & E). congruence.
+  - unfold on_ttimeout. destruct (t_deleted t); [assumption|].
+    destruct (close_conn_frame0 Cl (close_conn Sv t) y) as (_ & _ & _ & E).
+    destruct (close_conn_frame0 Sv t y) as (_ & _ & _ & E'). congruence.
+Qed.
+
+Definition opens (t : tun) : bool * bool := (s_open (t_cl t), s_open (t_sv t)).
+
+Lemma opens_gs t : opens t = (true, true) -> forall y, s_open (gs y t) = true.
+Proof. unfold opens. intros H y. injection H as H1 H2. destruct y; cbn [gs]; assumption. Qed.
+
+Lemma copy_to_opens x t : opens (copy_to x t) = opens t.
+Proof. unfold copy_to, opens. destruct x; reflexivity. Qed.
+
+Lemma keep_going_pass len from t :
+  len <> 0 -> s_open (gs (other from) t) = true -> keep_going len false from t = (true, t).
+Proof.
+  intros Hl Ho. unfold keep_going. apply N.eqb_neq in Hl. rewrite Hl, Ho. reflexivity.
+Qed.
+
+Lemma copy_bytes_opens from t :
+  s_open (gs (other from) t) = true -> opens (copy_bytes from t) = opens t.
+Proof.
+  intros Ho. unfold copy_bytes. destruct (s_buf (gs from t)); [|reflexivity].
+  destruct (s_pre (gs from t)) as [|p0 pre'] eqn:Ep.
+  - unfold opens. destruct from; reflexivity.
+  - rewrite keep_going_pass.
+    + rewrite copy_to_opens. unfold opens. destruct from; reflexivity.
+    + pose proof bufsz_pos. cbn [lenN]. lia.
+    + destruct from; exact Ho.
+Qed.
+
+Lemma eof_closes a t :
+  s_open (gs a t) = true -> s_open (gs (other a) t) = true -> s_buf (gs a t) = [] ->
+  let s := gs a t in
+  let t1 := ss a (mkSide (s_open s) (s_noted s) (s_buf s) (s_pre s) (s_writer s) false (s_wire s) (s_fin s)
+                         (s_sentby s) (s_recvd s) (s_deliv s)) t in
+  let t' := snd (keep_going 0 false a t1) in
+  opens t' = (false, false) /\ s_fin (gs a t') = s_fin (gs a t) /\
+  s_deliv (gs (other a) t') = s_deliv (gs (other a) t) /\ s_sentby (gs a t') = s_sentby (gs a t).
+Proof.
+  intros Ho1 Ho2 Hb. destruct t as [cl sv del cr]. unfold keep_going, close_conn, opens.
+  destruct a; destruct cl, sv; cbn in *; subst; cbn; repeat split; reflexivity.
+Qed.
+
+(* one step from a state in which both connections are open, without I/O errors and without a FIN from B's peer:
+   either both stay open, or A's EOF was read and both are closed with everything A sent delivered to B *)
+Lemma step_both_open a e t :
+  TI t -> opens t = (true, true) -> s_fin (gs (other a) t) = false ->
+  is_err e = false -> is_fin_of (other a) e = false ->
+  opens (tstep e t) = (true, true) \/
+  (opens (tstep e t) = (false, false) /\ s_fin (gs a (tstep e t)) = true /\
+   s_deliv (gs (other a) (tstep e t)) = s_sentby (gs a (tstep e t))).
+Proof.
+  intros HT Hop HfB Herr Hfin.
+  pose proof (opens_gs t Hop) as Hopen.
+  destruct e as [x d|x|x n|x|x|x k|x|]; cbn [tstep is_err] in *; try discriminate.
+  - left. unfold on_tsend. destruct (s_fin (gs x t)); [assumption|]. rewrite <- Hop. unfold opens. destruct x; reflexivity.
+  - left. unfold on_tfin. rewrite <- Hop. unfold opens. destruct x; reflexivity.
+  - unfold on_tread.
+    destruct (t_deleted t || negb (s_reading (gs x t) && s_open (gs x t))) eqn:Eg; [left; assumption|].
+    apply orb_false_iff in Eg. destruct Eg as [_ Eg]. apply negb_false_iff in Eg. apply andb_true_iff in Eg.
+    destruct Eg as [Hr _].
+    destruct (s_wire (gs x t)) as [|w0 wire'] eqn:Ew.
+    + destruct (s_fin (gs x t)) eqn:Ef; [|left; assumption].
+      (* EOF on x: x must be a *)
+      assert (x = a) by (destruct x, a; cbn [other] in *; congruence). subst x.
+      right.
+      destruct (TI_dok a t HT) as ((D1 & _ & D3 & D4 & _) & _ & _).
+      destruct (D4 Hr) as (Hb & Hp & _ & _).
+      specialize (D3 (Hopen (other a))). rewrite Hb, Hp, app_nil_r in D3. cbn [app] in D3.
+      rewrite Ew, app_nil_r in D1.
+      destruct (eof_closes a t (Hopen a) (Hopen (other a)) Hb) as (E1 & E2 & E3 & E4).
+      cbn zeta in E1, E2, E3, E4. rewrite Ew, Ef in *.
+      split; [exact E1|]. split; [rewrite E2; reflexivity|]. rewrite E3, E4. congruence.
+    + left.
+      rewrite keep_going_pass.
+      * rewrite copy_to_opens. rewrite <- Hop. unfold opens. destruct x; reflexivity.
+      * pose proof bufsz_pos. cbn [lenN]. lia.
+      * specialize (Hopen (other x)). destruct x; exact Hopen.
+  - left. unfold on_twrote.
+    destruct (t_deleted t || negb (s_writer (gs x t) && s_open (gs x t))) eqn:Eg; [assumption|].
+    apply orb_false_iff in Eg. destruct Eg as [_ Eg]. apply negb_false_iff in Eg. apply andb_true_iff in Eg.
+    destruct Eg as [Hw _].
+    destruct (TI_dok (other x) t HT) as ((_ & _ & _ & _ & D5) & _ & _). rewrite other_other in D5.
+    destruct (D5 Hw) as (_ & Hbuf & _).
+    destruct (lenN (s_buf (gs (other x) t)) =? 0) eqn:El.
+    { apply N.eqb_eq in El. exfalso. apply (lenN_nonempty _ Hbuf). exact El. }
+    match goal with |- context [copy_bytes (other x) ?tt] => set (t2 := tt) end.
+    assert (Ho2 : opens t2 = (true, true)).
+    { rewrite <- Hop. unfold t2, opens. destruct x; reflexivity. }
+    pose proof (opens_gs t2 Ho2) as Hopen2. rewrite (Hopen2 (other x)). cbn [negb].
+    rewrite copy_bytes_opens; [assumption|]. rewrite other_other. apply Hopen2.
+  - left. unfold on_tclosed. rewrite (Hopen x). rewrite orb_true_r. cbn [orb]. assumption.
+Qed.
+
+Definition drain_inv (a : sd) (t : tun) : Prop :=
+  s_fin (gs (other a) t) = false /\
+  (opens t = (true, true) \/
+   (opens t = (false, false) /\ s_fin (gs a t) = true /\ s_deliv (gs (other a) t) = s_sentby (gs a t))).
+
+Lemma opens_closed_gs t : opens t = (false, false) -> forall y, s_open (gs y t) = false.
+Proof. unfold opens. intros H y. injection H as H1 H2. destruct y; cbn [gs]; assumption. Qed.
+
+Lemma drain_step a e t :
+  TI t -> drain_inv a t -> is_err e = false -> is_fin_of (other a) e = false -> drain_inv a (tstep e t).
+Proof.
+  intros HT (HfB & Hcase) Herr Hfin. split; [apply tstep_fin_same; assumption|].
+  destruct Hcase as [Hop | (Hcl & HfA & Hd)].
+  - apply (step_both_open a e t HT Hop HfB Herr Hfin).
+  - right. pose proof (tstep_frame e t) as F. pose proof (opens_closed_gs t Hcl) as Hc.
+    destruct (F a) as (_ & _ & Fa). destruct (Fa HfA) as [Fs Ff].
+    destruct (F (other a)) as (_ & Fd & _). specialize (Fd (Hc (other a))).
+    split; [|split; [assumption| congruence]].
+    unfold opens.
+    destruct (s_open (t_cl (tstep e t))) eqn:E1.
+    { destruct (F Cl) as (M & _). specialize (M E1). rewrite (Hc Cl) in M. discriminate. }
+    destruct (s_open (t_sv (tstep e t))) eqn:E2.
+    { destruct (F Sv) as (M & _). specialize (M E2). rewrite (Hc Sv) in M. discriminate. }
+    reflexivity.
+Qed.
+
+Lemma tun_start_opens early : opens (tun_start early) = (true, true).
+Proof.
+  unfold tun_start.
+  rewrite copy_bytes_opens; [rewrite copy_bytes_opens; reflexivity|].
+  cbn [other]. assert (E : opens (copy_bytes Sv (mkTun (side0 early) (side0 []) false false)) = (true, true))
+    by (rewrite copy_bytes_opens; reflexivity).
+  apply (opens_gs _ E Sv).
+Qed.
+
+Lemma tun_start_fin early y : s_fin (gs y (tun_start early)) = false.
+Proof.
+  unfold tun_start.
+  destruct (copy_bytes_frame0 Cl (copy_bytes Sv (mkTun (side0 early) (side0 []) false false)) y) as (_ & _ & _ & E1).
+  destruct (copy_bytes_frame0 Sv (mkTun (side0 early) (side0 []) false false) y) as (_ & _ & _ & E2).
+  rewrite E1, E2. destruct y; reflexivity.
+Qed.
+
+(* When no I/O error or timeout occurs and B's peer does not close, Squid closes B only after it has read A's
+   FIN, and then every byte A ever sent has been delivered to B. *)
+Theorem tunnel_drain_on_close early evs a :
+  (forall e, In e evs -> is_err e = false /\ is_fin_of (other a) e = false) ->
+  let t := trun evs (tun_start early) in
+  s_open (gs (other a) t) = false ->
+  s_fin (gs a t) = true /\ s_deliv (gs (other a) t) = s_sentby (gs a t) /\ s_open (gs a t) = false.
+Proof.
+  intros Hev.
+  assert (G : forall t0, TI t0 -> drain_inv a t0 ->
+                         (forall e, In e evs -> is_err e = false /\ is_fin_of (other a) e = false) ->
+                         drain_inv a (trun evs t0)).
+  { induction evs as [|e evs IH]; intros t0 HT HD Hall; cbn [trun fold_left]; [assumption|].
+    apply IH.
+    - intros e' Hin. apply Hev. right. exact Hin.
+    - apply tstep_TI. assumption.
+    - destruct (Hall e (or_introl eq_refl)) as [E1 E2]. apply drain_step; assumption.
+    - intros e' Hin. apply Hall. right. exact Hin. }
+  cbn zeta. intros Hclosed.
+  destruct (G (tun_start early) (tun_start_TI early)) as (_ & [Hop | (Hcl & HfA & Hd)]).
+  - split; [apply tun_start_fin|]. left. apply tun_start_opens.
+  - exact Hev.
+  - rewrite (opens_gs _ Hop (other a)) in Hclosed. discriminate.
+  - split; [assumption|]. split; [assumption|]. apply (opens_closed_gs _ Hcl a).
+Qed.
+
+(* non-vacuity: a client sends early bytes and more, half-closes; everything arrives before the server is closed *)
+Definition ex_tevs : list tev :=
+  [TWrote Sv; TSend Cl [7;8]; TSend Sv [5]; TRead Sv 9; TRead Cl 1; TWrote Cl; TWrote Sv; TRead Cl 5; TFin Cl; TWrote Sv; TRead Cl 1].
+Lemma ex_drain :
+  let t := trun ex_tevs (tun_start [1;2;3]) in
+  s_open (gs Sv t) = false /\ s_deliv (gs Sv t) = [1;2;3;7;8] /\ s_deliv (gs Cl t) = [5] /\
+  forall e, In e ex_tevs -> is_err e = false /\ is_fin_of (other Cl) e = false.
+Proof.
+  cbn zeta. split; [vm_compute; reflexivity|]. split; [vm_compute; reflexivity|]. split; [vm_compute; reflexivity|].
+  intros e Hin. cbn [ex_tevs In] in Hin.
+  repeat (destruct Hin as [<-|Hin]; [split; reflexivity|]). contradiction.
+Qed.
+
+(* the opposite direction is NOT drained when one side half-closes: Squid closes both connections as soon as it
+   reads A's FIN, bytes B sent meanwhile are dropped (no error event involved) *)
+Lemma reverse_direction_cut :
+  exists evs, (forall e, In e evs -> is_err e = false) /\
+    let t := trun evs (tun_start []) in
+    s_open (gs Cl t) = false /\ s_sentby (gs Sv t) = [1;2;3] /\ s_deliv (gs Cl t) = [].
+Proof.
+  exists [TSend Sv [1;2;3]; TFin Cl; TRead Cl 1].
+  split.
+  - intros e Hin. cbn [In] in Hin. repeat (destruct Hin as [<-|Hin]; [reflexivity|]). contradiction.
+  - cbn zeta. repeat split; vm_compute; reflexivity.
+Qed.
